@@ -19,7 +19,9 @@ def spec(tier, seed):
         jobs.append(Job("h263", g.c17_name(1, sh, i), 3000, tagged=True, group="two decoders, same history, a third one interleaved",
                         params={"history_A": a.describe(), "history_B": b.describe(), "pre_state_shape": sh},
                         cbmc_args=["--max-field-sensitivity-array-size", "%d" % max(200, n + 8)], allow_uncovered=("one decoder succeeds while the other fails",)))
-    return {"jobs": jobs, "generated": {"h263/src/decoder/state.rs": gen}, "functions": m.FUNCS, "stubs": m.STUBS,
+    jobs.append(Job("h263", "c17_header_parse_independent", 3000, tagged=False, group="header parser: an earlier call does not influence a later one",
+                    allow_uncovered=("earlier header accepted, later header without optional modes",)))
+    return {"jobs": jobs, "generated": {"h263/src/decoder/state.rs": gen, "h263/src/parser/picture.rs": g.c17_hdr()}, "functions": m.FUNCS, "stubs": m.STUBS,
             "rule": "2-safety on the decoder-core step: decoders A1 and A2 start from the same arbitrary state and are fed the same script, a third decoder B (arbitrary other state, other script) runs between them; results (Ok/Err kind), observable state, consumed input must be equal; the lazily initialised option masks equal their defining constants. Scenario pairs enumerated, payload symbolic.",
             "bounds": ["one step per decoder; pictures of one macroblock; %d scenario pairs" % len(pairs)],
             "outside": ["thread interleavings: Kani/CBMC has no concurrency model for Rust threads and no other solver-based engine for Rust threads is installed - the schedules quantifier of C17 is NOT covered; only sequential non-interference is", "hash-order independence cannot be examined on the map model; state.rs never iterates the map (argued)"] + m.OUTSIDE,
